@@ -9,6 +9,7 @@
   `step_total` / `run_total`: every allowed step / script does return (no panic, no divergence).
 -/
 import DnsModel.Theorems.C08
+import DnsModel.Tie.Counts
 import DnsModel.Theorems.C10
 namespace Dns.C08
 open Dns Res
@@ -859,5 +860,16 @@ theorem run_total : ∀ (ops : List Op) (s : St), Inv s → AllowedRun s ops →
 /-- the preconditions are satisfiable: walking into a section and deleting what is found is always allowed -/
 example (s : St) : AllowedRun s [.openIter .answer, .next, .delete, .next, .close, .recompute] := by
   simp [AllowedRun, Allowed, Section.isRec]
+
+
+/-! ### Tie to the current source text: the record-count bookkeeping every insertion and deletion goes through
+(`rrcount_inc`, `rrcount_dec`, `insertion_offset` of parsed_packet.rs with the `set_*count` writers of dns_sector.rs,
+re-translated on every run: `Generated/TrCounts.lean`, `Tie/Counts.lean`) -/
+theorem source_counts_tie (pp : PP) (s : Section) :
+    (Tr.Counts.rrcount_inc pp.packet s >>= fun r => Res.ok r.2) = (rrcountInc pp s >>= Tie.incResult) ∧
+    Tr.Counts.rrcount_dec pp.packet s = (rrcountDec pp s >>= fun r => Res.ok (r.2, r.1.packet)) ∧
+    Tr.Counts.insertion_offset pp.packet pp.offsetAnswers pp.offsetNameservers pp.offsetAdditional s
+      = insertionOffset pp s :=
+  ⟨Tie.rrcount_inc_eq pp s, Tie.rrcount_dec_eq pp s, Tie.insertion_offset_eq pp s⟩
 
 end Dns.C08
